@@ -38,12 +38,8 @@ package storage
 //@   assumed
 //@   requires h != nil && len(h.Slice) > 0 && revHeapOK(h)
 //@   ensures revHeapOK(h) && len(h.Slice) == old(len(h.Slice)) - 1 && result == old(h.Slice[0])
-//@   ensures [perm] forall k int :: 0 <= k && k < len(h.Slice) ==> exists l int :: 1 <= l && l < old(len(h.Slice)) && h.Slice[k] == old(h.Slice[l])
-//@   modifies h.Slice, elems(h.Slice)
-//@ func heap.(*Heap).Push[*storage.item]
-//@   assumed
-//@   requires h != nil && revHeapOK(h)
-//@   ensures revHeapOK(h) && len(h.Slice) == old(len(h.Slice)) + 1
+//@   ensures [from] forall k int :: 0 <= k && k < len(h.Slice) ==> exists l int :: 1 <= l && l < old(len(h.Slice)) && h.Slice[k] == old(h.Slice[l])
+//@   ensures [nodup] old(distinct(h)) ==> distinct(h)
 //@   modifies h.Slice, elems(h.Slice)
 //@ func heap.(*Heap).Fix[*storage.item]
 //@   assumed
@@ -75,3 +71,69 @@ package storage
 //@   loop 0 invariant -1 <= i && i < len(h.Slice) && revHeapOK(h) && distinct(h) && itemsOK(h)
 //@   loop 0 invariant h.Slice.arr == old(h.Slice.arr) && h.Slice.off == old(h.Slice.off) && cap(h.Slice) == old(cap(h.Slice)) && len(h.Slice) <= old(len(h.Slice))
 //@   loop 0 invariant forall k int :: i < k && k < len(h.Slice) ==> ctxErr(h.Slice[k].ctx) == nil
+
+// ---------------------------------------------------------------- the event loop (C11)
+
+// the data-structure invariant of one table's heap, owned by the event-loop goroutine
+//@ pure func hOK(h *heap.Heap[*item]) bool = h != nil && itemsOK(h) && distinct(h) && revHeapOK(h)
+
+// A waiter arriving on the add channel was built by Add: unanswered, capacity-1 channel of its own,
+// and it is not in any heap yet (Add creates a fresh waiter and sends it exactly once).
+//@ chanvalue *storage.item x assume itemOK(x) && forall hh *heap.Heap[*item], k int :: 0 <= k && k < len(hh.Slice) ==> hh.Slice[k] != x
+//@ chanvalue *storage.item x ensure x != nil && x.ctx != nil && x.waitCh != nil && cap(x.waitCh) == 1 && len(x.waitCh) == 0 && !chanClosed(x.waitCh) && fresh(x) && fresh(x.waitCh)
+
+// a Len request carries the requester's own rendezvous channel
+//@ chanvalue storage.reqlen r assume r.waitCh != nil && !chanClosed(r.waitCh) && chanOwner(r.waitCh) == 0      // not a waiter's channel
+
+// the per-table heaps live in a SyncMap owned by the event loop; every heap in it satisfies hOK
+// (ASSUMED data-structure invariant at load time; each arm must re-establish it for the heap it touched)
+//@ func util.(*SyncMap).Load[string,*heap.Heap[*storage.item]]
+//@   assumed
+//@   results v, ok
+//@   requires s != nil
+//@   ensures hOK(v)
+//@   modifies nothing
+//@ func util.(*SyncMap).Values[string,*heap.Heap[*storage.item]]
+//@   assumed
+//@   requires s != nil
+//@   modifies nothing
+// iter.Consume calls the sweep on every heap of the map (schema: calls fn on each element yielded)
+//@ func iter.Consume[*heap.Heap[*storage.item]]
+//@   assumed
+//@   modifies family(CH_len)
+
+//@ func time.NewTicker
+//@   assumed
+//@   ensures result != nil
+//@   modifies nothing
+//@ func time.(*Ticker).Stop
+//@   assumed
+//@   modifies nothing
+
+//@ func heap.(*Heap).Push[*storage.item]
+//@   assumed
+//@   requires h != nil && revHeapOK(h)
+//@   ensures revHeapOK(h) && len(h.Slice) == old(len(h.Slice)) + 1
+//@   ensures [from] forall k int :: 0 <= k && k < len(h.Slice) ==> h.Slice[k] == item || exists l int :: 0 <= l && l < old(len(h.Slice)) && h.Slice[k] == old(h.Slice[l])
+//@   ensures [nodup] old(distinct(h)) && (forall k int :: 0 <= k && k < old(len(h.Slice)) ==> old(h.Slice[k]) != item) ==> distinct(h)
+//@   modifies h.Slice, elems(h.Slice)
+
+// Run: one select arm = one atomic action that keeps the invariant of the heap it touches and never
+// blocks on a waiter. add: the waiter is inserted. notify(n): every waiter at the front that is expired
+// (answered with its context error) or covered by n (answered by closing its channel) is removed;
+// afterwards the heap is empty or its root is live with a larger revision. len: answers Len.
+//@ func (*IndexNotificationQueue).Run
+//@   nonblocking error
+//@   requires q != nil && q.items != nil
+//@   modifies family(CH_len), family(CH_closed), allfields(heap.Heap[*item]), allelems(*item)
+//@   loop 0 invariant q.items != nil
+//@   loop 1 invariant 0 <= i && i <= l && len(h.Slice) == l - i && hOK(h)
+//@   loop 0 step [C11.loop.inv]    hOK(h)
+//@   loop 0 step [C11.notify.drain] len(h.Slice) == 0 || (ctxErr(h.Slice[0].ctx) == nil && h.Slice[0].revision > n.revision)
+
+// Add: builds a fresh unanswered waiter with a capacity-1 channel of its own, hands it to the event
+// loop exactly once and returns that channel
+//@ func (*IndexNotificationQueue).Add
+//@   requires q != nil && q.add != nil && !chanClosed(q.add) && ctx != nil
+//@   ensures [C11.add.chan] result != nil && fresh(result) && cap(result) == 1
+//@   modifies family(CH_len)
